@@ -206,10 +206,15 @@ class Check:
                                unsupported=xp.unsupported, inconclusive=ob.inconclusive, fork_sites=xp.fork_sites,
                                violations=[(v.obligation, v.label, v.model_desc, v.replay, v.reproduced) for v in ob.violations],
                                witnesses=getattr(ob, 'witnesses', None), known=chk.known, modelgaps=chk.modelgaps, replayed=chk.replayed)
-                    with open(os.path.join(tmpd, '%d.pkl' % os.getpid()), 'wb') as f:
+                    with open(os.path.join(tmpd, '%d-%d.pkl' % (os.getpid(), time.time_ns())), 'wb') as f:
                         pickle.dump(out, f)
                 except BaseException:
                     code = 1
+                    try:
+                        with open(os.path.join(tmpd, '%d-%d-err.pkl' % (os.getpid(), time.time_ns())), 'wb') as f:
+                            pickle.dump({'worker_error': traceback.format_exc()[-1500:]}, f)
+                    except BaseException:
+                        pass
                 os._exit(code)
         xp.fork_ctx = None
         if fc.truncated.value:
@@ -220,6 +225,9 @@ class Check:
                     out = pickle.load(f)
             except Exception:
                 ob.inconclusive.append('a path worker left no result')
+                continue
+            if 'worker_error' in out:
+                ob.inconclusive.append('a path worker failed to report: ' + out['worker_error'])
                 continue
             ob.paths += out['paths']
             ob.discharged += out['discharged']
